@@ -113,6 +113,11 @@ def gen_mappres(rng):
         acts.append(actor("C", "close"))
     if rng.random() < 0.3:
         acts.append(actor("T2", "tick"))
+    if rng.random() < 0.35:
+        # the PresenceManager fails when the unsubscribing / closing goroutine removes the node-level entry:
+        # the remaining cleanup steps (map presence entry) must still be attempted
+        acts[0]["p"] = 1
+        rng.choice([a for a in acts if a["kind"] in UNSUBK + ("close",)])["fail"] = "presrm"
     ids = [a["id"] for a in acts]
     k = rng.random()
     if k < 0.6:
@@ -323,7 +328,10 @@ def oracle_c05(case):
     for ch, c in f["ch"].items():
         if c["hub"] != "h-":
             return "routing entry survives the connection"
-        if c["pres"] != "p0":
+        if c["pres"] != "p0" and not any(
+                e.split()[0] == "pass" and e.split()[2] == "presrm" and e.split()[3] == ch and e.split()[-1] == "fail"
+                for e in case.events):
+            # (the node-level entry may remain only if its own removal is the call that was made to fail)
             return "presence entry survives the connection"
         if c["entry"] != "-":
             return "channel entry survives in the closed client"
@@ -472,6 +480,15 @@ def signature(prop, case, msg):
             if w[0] == "pass" and w[2] == "mappub" and case.final["mappres"].get(w[3], 0) > 0:
                 last = kinds.get(w[1], "close" if w[1].startswith("x") else "?")
         sig["late_add_by"] = last
+        # the finding's mechanism: the cleanup did remove (MapBroker.Remove passed) and the add came after it
+        seen_rm, rm_before_last_add = set(), False
+        for e in case.events:
+            w = e.split()
+            if w[0] == "pass" and w[2] == "maprm":
+                seen_rm.add(w[3])
+            if w[0] == "pass" and w[2] == "mappub" and case.final["mappres"].get(w[3], 0) > 0:
+                rm_before_last_add = w[3] in seen_rm
+        sig["removed_before_late_add"] = rm_before_last_add
     return sig
 
 
